@@ -76,6 +76,20 @@ def key_text(v):
         return "nan" if math.isnan(x) else repr(x + 0.0 if x != 0 else 0.0)
     if k == "alias":
         return key_text(v[2])
+    # containers: identity up to the order of set items and map entries (two sets listing the same items in
+    # another order are the same item of an enclosing set)
+    if k == "opt":
+        return "opt(" + ("" if v[1] is None else key_text(v[1])) + ")"
+    if k == "list":
+        return "[" + ",".join(key_text(x) for x in v[1]) + "]"
+    if k == "set":
+        return "{" + ",".join(sorted(key_text(x) for x in v[1])) + "}"
+    if k == "map":
+        return "{" + ",".join(sorted(key_text(a) + ":" + key_text(b) for a, b in v[1])) + "}"
+    if k == "obj":
+        return "obj:" + v[1] + "(" + ",".join(fn + "=" + key_text(fv) for fn, fv in v[2]) + ")"
+    if k == "union":
+        return "union:" + v[1] + ":" + str(v[2]) + "(" + ("" if v[2] is None else key_text(v[3])) + ")"
     return json.dumps(v[1:], default=lambda b: b.hex() if isinstance(b, bytes) else str(b), sort_keys=True)
 
 
